@@ -13,6 +13,8 @@ KEEP_DS_ATTRS = ("take", "index_prop", "take_axis", "sort_axis", "reindex_axis",
 def _guard(f):
     try:
         return ("ok", f())
+    except Violation:
+        raise
     except RecursionError:
         return ("raise", RecursionError, "")
     except Exception as e:
@@ -235,17 +237,26 @@ def run_dsop(w, s):
             if g[0] != "ok":
                 raise Skip("derived dataset")
             reals.append(g[1])
+        def keeps_list(call):
+            # the caller's list and the datasets in it are operands too
+            ids = [id(x) for x in reals]
+            snaps = [V.snap_dataset(x) for x in reals]
+            try:
+                return call()
+            finally:
+                if "C15" in w.props and ([id(x) for x in reals] != ids or [V.snap_dataset(x) for x in reals] != snaps):
+                    raise Violation("C15", "operand_changed", "%s changed the list of datasets it was given (or a dataset in it)" % what)
         if what == "stack_ds":
             skeys = list(s["keys"])[:n]
             al = s["align"]
-            real = lambda: da.stack_ds(reals, axis=s["axis"], keys=list(skeys), align=al)
+            real = lambda: keeps_list(lambda: da.stack_ds(reals, axis=s["axis"], keys=list(skeys), align=al))
             for k in keys:
                 per_var[k] = (lambda a, k=k: da.stack([mm.array(k) for mm in models], axis=s["axis"], keys=list(skeys), align=al))
         else:
             al = s["align"]
             if not all(has(k) for k in keys):
                 raise Skip("concatenate_ds is documented to require the dimension in every variable")
-            real = lambda: da.concatenate_ds(reals, axis=dim, align=al)  # by name: a position is ambiguous across variables
+            real = lambda: keeps_list(lambda: da.concatenate_ds(reals, axis=dim, align=al))  # by name: a position is ambiguous across variables
             for k in keys:
                 per_var[k] = (lambda a, k=k: da.concatenate([mm.array(k) for mm in models], axis=dim, align=al))
     else:
@@ -288,7 +299,7 @@ def run_dsop(w, s):
         ev = expected[k]
         if not isinstance(ev, da.DimArray):
             ev = da.DimArray(ev)
-        d = V.diff_arrays(rv, ev, rtol=1e-9, attrs=False, dtype="kind", kind=False)
+        d = V.diff_arrays(rv, ev, rtol=1e-9, attrs=False, dtype="exact" if rv.values.dtype.kind != "O" and ev.values.dtype.kind != "O" else "kind", kind=False)
         if d:
             oracle = "ds_op_unchanged" if k in lacking else "ds_op_var"
             raise Violation("C14", oracle, "Dataset.%s(%s): variable %r (dims %r%s): %s" % (
